@@ -32,11 +32,11 @@ def gen_case(rng: random.Random, n_ops: int, profile: str = "mixed") -> list[str
         spec["fail"] = [-1] * NCMD
     lines = [cfg_line(spec), "user\tstart", "tick"]
     nid = 1
-    w = {"mixed": (0.33, 0.35, 0.10, 0.07, 0.05, 0.04, 0.03, 0.03),
-         "c11": (0.40, 0.36, 0.12, 0.02, 0.00, 0.05, 0.03, 0.02),
-         "c10": (0.34, 0.34, 0.03, 0.03, 0.10, 0.08, 0.06, 0.02),
-         "c12": (0.28, 0.30, 0.20, 0.16, 0.00, 0.03, 0.02, 0.01)}[profile]
-    kinds = ["req", "tick", "cancel", "force", "sim", "stop", "restart", "start"]
+    w = {"mixed": (0.31, 0.33, 0.10, 0.07, 0.05, 0.04, 0.03, 0.03, 0.04),
+         "c11": (0.38, 0.34, 0.12, 0.02, 0.00, 0.05, 0.03, 0.02, 0.04),
+         "c10": (0.32, 0.32, 0.03, 0.03, 0.10, 0.08, 0.06, 0.02, 0.04),
+         "c12": (0.27, 0.28, 0.20, 0.16, 0.00, 0.03, 0.02, 0.01, 0.03)}[profile]
+    kinds = ["req", "tick", "cancel", "force", "sim", "stop", "restart", "start", "pause"]
     for _ in range(n_ops):
         k = rng.choices(kinds, w)[0]
         if k == "req":
@@ -49,6 +49,8 @@ def gen_case(rng: random.Random, n_ops: int, profile: str = "mixed") -> list[str
             lines.append(f"{k}\t{tgt}")
         elif k == "sim":
             lines.append(f"sim\t{rng.randrange(3)}")
+        elif k == "pause":
+            lines.append(f"pause\t{rng.choice([1, 1, 0])}")
         else:
             lines.append(f"user\t{k}")
             nid += 1
@@ -63,20 +65,20 @@ def malformed_case(rng: random.Random) -> list[str]:
     for _ in range(rng.randrange(4, 14)):
         lines.append(rng.choice(["req\t0", "req\t7", "cancel\t999", "force\t999", "cancel\t0", "force\t1",
                                  "user\tstop", "user\tstart", "user\tstart", "user\trestart", "tick", "tick",
-                                 "sim\t2"]))
+                                 "sim\t2", "pause\t1", "pause\t0"]))
     return lines
 
 
 def exhaustive_cases(length: int) -> list[list[str]]:
     """Every op sequence of the given length over a small alphabet, after Start."""
-    alphabet = ["req\t0", "req\t1", "req\t2", "req\t3", "tick", "cancel\t1", "cancel\t2", "force\t1", "user\tstop"]
+    alphabet = ["req\t0", "req\t1", "req\t2", "req\t3", "tick", "cancel\t1", "pause\t1", "force\t1", "user\tstop"]
     head = [cfg_line(SMALL_SPEC), "user\tstart", "tick"]
     return [head + list(seq) + ["tick", "tick"] for seq in itertools.product(alphabet, repeat=length)]
 
 
 # ------------------------------------------------------------------------------------------------ parsing
 
-_OBS = re.compile(r"^(\S+) \| ev=(\S+) ex=(\S+) qu=(\S+) in=(\S+) tr=(\S+) st=(\d)(\d)(\d) sys=(\w) run=(\S+) "
+_OBS = re.compile(r"^(\S+) \| ev=(\S+) ex=(\S+) qu=(\S+) in=(\S+) tr=(\S+) st=(\d)(\d)(\d)(\d) sys=(\w) run=(\S+) "
                   r"sim=(\S+) rs=(\d+) stop=(\S+)$")
 
 
@@ -102,9 +104,9 @@ def parse(answer: str) -> dict[str, Any] | None:
         inst[int(k)] = {"serial": int(ser), "owner": owner, "state": rest}
     return {"reply": m.group(1), "ev": lst(m.group(2)), "ex": lst(m.group(3)), "qu": lst(m.group(4)), "inst": inst,
             "tr": tracks(m.group(6)), "started": m.group(7) == "1", "stopping": m.group(8) == "1",
-            "tracking": m.group(9) == "1", "sys": m.group(10), "run": m.group(11), "sim": lst(m.group(12)),
-            "resets": int(m.group(13)),
-            "stop": None if m.group(14) == "none" else [tracks(x) for x in m.group(14).split("/")],
+            "tracking": m.group(9) == "1", "paused": m.group(10) == "1", "sys": m.group(11), "run": m.group(12),
+            "sim": lst(m.group(13)), "resets": int(m.group(14)),
+            "stop": None if m.group(15) == "none" else [tracks(x) for x in m.group(15).split("/")],
             "raw": answer}
 
 
@@ -218,7 +220,7 @@ def oracle_c12(lines: list[str], answers: list[str]) -> list[tuple[str, str]]:
                 t["item"][0 if f[0] == "cancel" else 1] in "CF"
             known = t is not None
             produced = t is not None and t["item"] not in ("none", "!!", "??")
-            same = all(o[k] == prev[k] for k in ("ex", "qu", "inst", "tr", "sim", "run", "sys")) and not o["ev"]
+            same = all(o[k] == prev[k] for k in ("ex", "qu", "inst", "tr", "sim", "run", "sys", "paused")) and not o["ev"]
             if known and produced and not offered:
                 if o["reply"] == "ok":
                     out.append((f"unoffered-{f[0]}-accepted", f"op {n}: {ln!r} on item {t} answered ok"))
